@@ -3386,6 +3386,11 @@ class Wallet(object):
             'txid': txid,
             'value': value
         }
+        # File the UTXO under the account and network of the key with this address
+        key = self.session.query(DbKey).filter_by(wallet_id=self.wallet_id, address=address).first()
+        if key:
+            return self.utxos_update(account_id=key.account_id, networks=key.network_name, utxos=[utxo],
+                                     rescan_all=False)
         return self.utxos_update(utxos=[utxo], rescan_all=False)
 
     def utxo_last(self, address):
